@@ -73,7 +73,7 @@ def strategy_(draw, tier):
             obj = draw(st.sampled_from(OBJS))
             ops.append(["setmany", obj, draw(st.integers(10, 14)), draw(st.sampled_from(["int16", "char8", "float64"]))])
         elif c < 65:
-            ops.append(["dimname", draw(st.integers(0, 1)), draw(st.sampled_from(["dx", "dy", "shared", "shared"]))])
+            ops.append(["dimname", draw(st.integers(0, 1)), draw(st.sampled_from(["dx", "dy", "shared", "shared", "latitude", "lat", "la"]))])   # incl. names that are prefixes of one another
         elif c < 70:
             ops.append(["dimscale", draw(st.integers(0, 1)), draw(st.sampled_from(["int32", "float32", "uint8"])),
                         draw(st.integers(0, 99))])
